@@ -305,8 +305,7 @@ fn long_declaration(rng: &mut Rng) -> (String, Vec<u8>, Option<String>) {
     } else {
         text.chars().map(|c| cp1252_byte(c).unwrap()).collect()
     };
-    // the text must come back (beyond the limit the declaration is not read: for labels other than
-    // UTF-8 and without byte order mark the oracle reports C02:decode-long-declaration-beyond-1024-…)
+    // the text must come back whatever the length of the declaration (/repo c3fcdf4: no 1024-byte limit)
     let end = lead + per * (text.find("?>").unwrap() + 2);
     let expect = Some(text.clone());
     (format!("long-declaration-{}", if end <= 1024 { "within-1024" } else { "beyond-1024" }), bytes, expect)
@@ -407,6 +406,25 @@ fn corpus(sink: &mut Sink) {
     {
         case(sink, "corpus", b, None);
     }
+    // once findings, now positive cases: a leading PI whose target is not ASCII (/repo 41ece46), a
+    // declaration that ends beyond byte 1024 (/repo c3fcdf4), a non-ASCII byte inside a declaration
+    for t in ["<?éxml encoding=\"latin1\"?><a>é</a>", "<?xmlé encoding=\"utf-16\"?><a>é</a>", "\u{feff}<?xéml encoding='koi8-r'?><a>é</a>"] {
+        case(sink, "corpus-pi-target-lookalike", t.as_bytes(), Some(t.strip_prefix('\u{feff}').unwrap_or(t)));
+    }
+    {
+        let text = format!("<?xml version=\"1.0\"{} encoding=\"ISO-8859-1\"?><a>é</a>", " ".repeat(1100));
+        let b: Vec<u8> = text.chars().map(|c| cp1252_byte(c).unwrap()).collect();
+        case(sink, "corpus-long-declaration", &b, Some(&text));
+        let text = format!("<?xml version=\"1.0\"{} encoding=\"UTF-16\"?><a>é€</a>", "\n".repeat(600));
+        case(sink, "corpus-long-declaration", &utf16_units(&text, true, false), Some(&text));
+        case(sink, "corpus-long-declaration", &utf16_units(&text, false, false), Some(&text));
+    }
+    for b in [&b"<?xml version='1.0' encoding='lat\xe9in1'?><a/>"[..], b"\xff\xfe\0\0<\0\0\0?\0\0\0x\0\0\0m\0\0\0l\0\0\0 \0\0\0e\0\0\0n\0\0\0c\0\0\0o\0\0\0d\0\0\0i\0\0\0n\0\0\0g\0\0\0=\0\0\0'\0\0\0x\0\0\0'\0\0\0?\0\0\0>\0\0\0",
+        b"\0\0\xfe\xff\0\0\0<\0\0\0?\0\0\0x\0\0\0m\0\0\0l\0\0\0 \0\0\0e\0\0\0n\0\0\0c\0\0\0o\0\0\0d\0\0\0i\0\0\0n\0\0\0g\0\0\0=\0\0\0'\0\0\0x\0\0\0'\0\0\0?\0\0\0>",
+        b"\0\0\xff\xfe<?xml encoding='x'?>", b"\xfe\xff\xef\xbb\xbf<?xml encoding='x'?>", b"\xef\xbb\xbf\xff\xfe<?xml encoding='x'?>", b"\xef\xbb<?xml encoding='x'?>", b"\0\xef\xbb\xbf<?xml encoding='x'?>"]
+    {
+        case(sink, "corpus-bom-and-declaration", b, None);
+    }
     for l in ["windows-1252", "iso-8859-1", "x-user-defined", "replacement", "utf-8", "utf-16le", "utf-16be", "koi8-r"] {
         case(sink, "corpus-all-bytes", &declared_all_bytes(l), None);
     }
@@ -497,7 +515,8 @@ pub fn run(seed: u64, count: usize, tier: &str, sink: &mut Sink) {
             }
             15 if rng.chance(1, 4) => {
                 // a UTF-8 document WITHOUT declaration that starts with a processing instruction whose
-                // target has a non-ASCII character: the ASCII bytes alone read `<?xml encoding=…?>`
+                // target has a non-ASCII character: the ASCII bytes alone read `<?xml encoding=…?>`; a
+                // non-ASCII byte before the first `>` means "no declaration" (/repo 41ece46): UTF-8
                 let target = *rng.pick(&["éxml", "xmlé", "xéml", "x\u{3b1}ml", "xml\u{b7}"]);
                 let label = *rng.pick(&["latin1", "windows-1252", "utf-16", "koi8-r", "utf-8", "x-unknown-zz"]);
                 let text = format!("<?{} encoding=\"{}\"?><a>é</a>", target, label);
